@@ -28,9 +28,15 @@ namespace tbb {
 namespace detail {
 namespace d2 {
 
-template <typename QueueRep, typename Allocator>
-std::pair<bool, ticket_type> internal_try_pop_impl(void* dst, QueueRep& queue, Allocator& alloc ) {
+struct ignore_skipped_ticket {
+    void operator()( ticket_type ) const {}
+};
+
+// on_skipped(ticket) is called for every invalid entry (left by a failed or aborted push) that was passed over
+template <typename QueueRep, typename Allocator, typename OnSkipped = ignore_skipped_ticket>
+std::pair<bool, ticket_type> internal_try_pop_impl(void* dst, QueueRep& queue, Allocator& alloc, OnSkipped on_skipped = OnSkipped{} ) {
     ticket_type ticket{};
+    bool popped = false;
     do {
         // Basically, we need to read `head_counter` before `tail_counter`. To achieve it we build happens-before on `head_counter`
         ticket = queue.head_counter.load(std::memory_order_acquire);
@@ -42,7 +48,9 @@ std::pair<bool, ticket_type> internal_try_pop_impl(void* dst, QueueRep& queue, A
             // Queue had item with ticket k when we looked.  Attempt to get that item.
             // Another thread snatched the item, retry.
         } while (!queue.head_counter.compare_exchange_strong(ticket, ticket + 1));
-    } while (!queue.choose(ticket).pop(dst, ticket, queue, alloc));
+        popped = queue.choose(ticket).pop(dst, ticket, queue, alloc);
+        if (!popped) on_skipped(ticket);
+    } while (!popped);
     return { true, ticket };
 }
 
@@ -602,6 +610,7 @@ private:
         // This loop is a single pop operation; abort_counter should not be re-read inside
         unsigned old_abort_counter = my_abort_counter.load(std::memory_order_relaxed);
 
+        bool popped = false;
         do {
             target = my_queue_representation->head_counter++;
             if (static_cast<std::ptrdiff_t>(my_queue_representation->tail_counter.load(std::memory_order_relaxed)) <= target) {
@@ -620,15 +629,21 @@ private:
                 });
             }
             __TBB_ASSERT(static_cast<std::ptrdiff_t>(my_queue_representation->tail_counter.load(std::memory_order_relaxed)) > target, nullptr);
-        } while (!my_queue_representation->choose(target).pop(dst, target, *my_queue_representation, my_allocator));
-
-        r1::notify_bounded_queue_monitor(my_monitors, cbq_slots_avail_tag, target);
+            popped = my_queue_representation->choose(target).pop(dst, target, *my_queue_representation, my_allocator);
+            // If the entry was invalid (its push failed or was aborted) its slot is free as well: the pushers waiting
+            // for it must be told now, because this pop goes on to wait for the item of a later ticket
+            r1::notify_bounded_queue_monitor(my_monitors, cbq_slots_avail_tag, target);
+        } while (!popped);
     }
 
     bool internal_pop_if_present( void* dst ) {
         bool present{};
         ticket_type ticket{};
-        std::tie(present, ticket) = internal_try_pop_impl(dst, *my_queue_representation, my_allocator);
+        // A skipped invalid entry frees a slot too, and the next ticket may belong to a pusher that waits for it
+        auto slot_freed = [this]( ticket_type skipped ) {
+            r1::notify_bounded_queue_monitor(my_monitors, cbq_slots_avail_tag, skipped);
+        };
+        std::tie(present, ticket) = internal_try_pop_impl(dst, *my_queue_representation, my_allocator, slot_freed);
 
         if (present) {
             r1::notify_bounded_queue_monitor(my_monitors, cbq_slots_avail_tag, ticket);
